@@ -877,10 +877,11 @@ class RealSession(BaseSession):
 
     def set_fail_push(self, k):
         self.fail_push_at = k
+        self.push_seen = 0
 
     def set_refuse_pushes(self, k):
         self.fail_push_from = k
-        self.push_seen = 0
+        self.push_seen_all = 0
 
     def third_party_tag_delete(self, tag):
         from symgit.realgit import git
